@@ -7,16 +7,27 @@
     nested if), a fixed array length, or a dominating successful `first()/last()/split_first()/split_last()` on the
     same base gives `len >= needed`;  or both bounds are the same symbolic value compared against the length;
   * `dst.copy_from_slice(src)` has equal lengths: `dst` is a fixed-size array `[T; N]` and a dominating fact says
-    `src.len() == N` (N a constant or the same const generic), or `src` is itself a constant-bounds sub-slice of length N;
-  * `split_at(mid)` with a constant `mid` not above the proven minimum length.
+    `src.len() == N` (N a constant or the same const generic); or both lengths are statically equal by type / by
+    construction: fixed-size arrays (through the unsize cast), `<int>::to_{be,le,ne}_bytes()`, elements yielded by
+    `chunks_exact(_mut)(N)` / `windows(N)` with constant N (seen through `zip`, `enumerate`, `rev`, `take`, ... and a
+    `for` loop's iterator local);
+  * `split_at(mid)` with a constant `mid` not above the proven minimum length;
+  * length facts across workspace functions: a dominating *successful* call of a helper whose every `Ok`/`Some` exit is
+    itself dominated by `len(param) >= bound` (`ensure_min_len(payload, K)?`), and, for a crate-private function that is
+    never used as a value, the minimum over *all* its call sites of the length proven for the argument at the call
+    (guard in the caller), one more level up if needed;
+  * `x - c` (unsigned) under a dominating `x != 0` / `x >= c` on the value before a widening conversion
+    (`usize::from(v) - 1` after `if v == 0 { return }`).
 
 Everything is read from MIR facts (resolved callee paths, types, dominance); no names or source text.
 """
 import re
 
 from . import guards
-from .panic import strip_generics, _len_of, _same_place, _is_const, _cv
+from .panic import strip_generics, _len_of, _same_place, _is_const, _cv, _operand_ty
+from .mir import pl_local, pl_proj
 
+_UBITS = {"u8": 8, "u16": 16, "u32": 32, "u64": 64, "usize": 64, "u128": 128}
 _NONEMPTY_RX = re.compile(r"^core::slice::(first|last|split_first|split_last|first_mut|last_mut)$")
 _PASS_RX = re.compile(r"(::branch|::ok_or|::ok_or_else|::as_ref|::copied|::cloned|::map_err|::ok)$")
 
@@ -25,6 +36,25 @@ def _strip_refs(x):
     while x[0] in ("ref", "deref") or (x[0] == "cast" and "Unsize" in str(x[-1])):
         x = x[1]
     return x
+
+
+def _fold(sym, depth=4):
+    """Value of a compile-time constant expression (`K + 1`, `2 * K` keep their checked-arithmetic shape in opt-level-0 MIR)."""
+    if sym[0] == "const":
+        try:
+            return int(sym[1])
+        except (TypeError, ValueError):
+            return None
+    if depth <= 0:
+        return None
+    if sym[0] == "field" and str(sym[2]) == "0" and sym[1][0] == "bin" and sym[1][1].endswith("WithOverflow"):
+        return _fold(("bin", sym[1][1][:-len("WithOverflow")], sym[1][2], sym[1][3]), depth)
+    if sym[0] == "bin" and sym[1] in ("Add", "Sub", "Mul"):
+        a, b = _fold(sym[2], depth - 1), _fold(sym[3], depth - 1)
+        if a is None or b is None:
+            return None
+        return a + b if sym[1] == "Add" else a - b if sym[1] == "Sub" else a * b
+    return None
 
 
 def _same(a, b):
@@ -62,6 +92,253 @@ def _fixed_len(fn, sym):
             if m:
                 return _array_len_of_type(ty)
     return None
+
+
+# ------------------------------------------------------------------ lengths known by construction / by type
+
+_CHUNKS_RX = re.compile(r"^core::slice::(chunks_exact|chunks_exact_mut|rchunks_exact|rchunks_exact_mut|array_chunks|array_windows|windows)$")
+_NEXT_RX = re.compile(r" as core::iter::traits::(iterator::Iterator::next|double_ended::DoubleEndedIterator::next_back)$")
+_INT_BYTES_RX = re.compile(r"^core::num::(to_be_bytes|to_le_bytes|to_ne_bytes)$")
+# iterator adaptors that hand the elements of their (first) argument through unchanged
+_ITER_PASS_RX = re.compile(r"(::into_iter|::iter|::iter_mut|::rev|::take|::skip|::step_by|::by_ref|::fuse|::peekable|::skip_while|::take_while|"
+                           r"::filter|::inspect|::chain)$")
+_ZIP_RX = re.compile(r"::zip$")
+_ENUMERATE_RX = re.compile(r"::enumerate$")
+
+
+def _iter_construction(fn, sym, hops=8):
+    """Symbolic value an iterator was constructed from.  A named iterator local is mutably borrowed by `next`, so the
+    engine does not substitute it; its *construction* (exactly one full definition, no partial writes) is still unique."""
+    while hops > 0:
+        hops -= 1
+        x = sym
+        while x[0] in ("ref", "deref"):
+            x = x[1]
+        if x[0] != "local" or not isinstance(x[1], int):
+            return x
+        ds = fn.defs().get(x[1], [])
+        if len(ds) != 1 or ds[0][2] not in ("assign", "call"):
+            return x
+        bi, si, kind, payload = ds[0]
+        if kind == "call":
+            return ("call", payload.get("f") or payload.get("g") or "", tuple(fn.sym_operand(a) for a in payload.get("args", [])), bi)
+        rv = payload[2]
+        if rv.get("k") == "use":
+            sym = fn.sym_operand(rv["x"])
+            if sym == x:
+                return x
+            continue
+        return x
+    return sym
+
+
+def _element_len(fn, it, path, hops=10):
+    """Length (int) of the slice elements yielded by iterator value `it` at tuple position `path` (list of field indices,
+    outermost first) — known when the elements come from `chunks_exact(_mut)(N)` / `windows(N)` with a constant N."""
+    while hops > 0:
+        hops -= 1
+        it = _iter_construction(fn, it)
+        if it[0] != "call":
+            return None
+        name = strip_generics(it[1])
+        args = it[2]
+        if _CHUNKS_RX.search(name) and len(args) == 2 and not path:
+            n = args[1]
+            if _is_const(n) and _cv(n) > 0:
+                return _cv(n)
+            return None
+        if _ZIP_RX.search(name) and len(args) == 2 and path:
+            it, path = args[path[0]] if path[0] in (0, 1) else None, path[1:]
+            if it is None:
+                return None
+            continue
+        if _ENUMERATE_RX.search(name) and len(args) == 1 and path and path[0] == 1:
+            it, path = args[0], path[1:]
+            continue
+        if _ITER_PASS_RX.search(name) and args:
+            it = args[0]
+            continue
+        return None
+    return None
+
+
+def _static_len(fn, sym):
+    """Length of a slice-typed value that is fixed by its type or by construction: a fixed-size array (through the unsize
+    cast), `<int>::to_{be,le,ne}_bytes()` (array by type), or an element of `chunks_exact(_mut)(N)`-style iteration."""
+    n = _fixed_len(fn, sym)
+    if n is not None:
+        return n
+    x = sym
+    while x[0] in ("ref", "deref") or (x[0] == "cast" and "Unsize" in str(x[-1])):
+        x = x[1]
+    # element of an iterator: (downcast(next(&it), Some).0).<k>...  -> follow the tuple path back to the constructor
+    path = []
+    y = x
+    while y[0] == "field":
+        try:
+            path.insert(0, int(y[2]))
+        except (TypeError, ValueError):
+            return None
+        y = y[1]
+    if y[0] == "downcast" and str(y[2]) in ("Some", "1") and path and path[0] == 0:
+        c = y[1]
+        if c[0] == "call" and _NEXT_RX.search(strip_generics(c[1])) and len(c[2]) == 1:
+            return _element_len(fn, c[2][0], path[1:])
+    return None
+
+
+
+# ------------------------------------------------------------------ interprocedural length facts (workspace helpers)
+
+def _program():
+    from . import mir
+    return mir._PROGRAM[0]
+
+
+_SUMMARY_CACHE = {}
+
+
+def helper_len_summary(prog, path):
+    """For a workspace function H: list of (slice param index, ("p", param index, slack) | ("c", value)) such that
+    *every* block of H that builds the success value (`Ok(..)` / `Some(..)` into the return place) is dominated by the
+    kill-checked fact `len(param) >= bound`.  Empty when H assigns its result in any other way (call result, copy of
+    another value): then nothing is known about its success."""
+    key = (id(prog), path)
+    if key in _SUMMARY_CACHE:
+        return _SUMMARY_CACHE[key]
+    _SUMMARY_CACHE[key] = []
+    h = prog.fns.get(path) if prog is not None else None
+    out = None
+    if h is not None and len(h.blocks) <= 60:
+        ok = True
+        succ_blocks = []
+        for bi in h.live_blocks():
+            b = h.blocks[bi]
+            t = b["term"]
+            if t["k"] == "call" and pl_local(t["dest"]) == 0:
+                ok = False
+            for st in b["st"]:
+                if st[0] == "a" and pl_local(st[1]) == 0:
+                    rv = st[2]
+                    if pl_proj(st[1]) or rv.get("k") != "agg" or rv.get("ak") != "adt":
+                        ok = False
+                    elif (rv.get("adt"), rv.get("variant")) in (("core::result::Result", "Ok"), ("core::option::Option", "Some")):
+                        succ_blocks.append(bi)
+                    elif (rv.get("adt"), rv.get("variant")) not in (("core::result::Result", "Err"), ("core::option::Option", "None")):
+                        ok = False
+        if ok and succ_blocks:
+            for bi in succ_blocks:
+                here = set()
+                for f in guards.facts_at_term(h, bi):
+                    for op, l, r in f.oriented():
+                        lb = _len_of(l)
+                        if lb is None:
+                            continue
+                        lb = _strip_refs(lb)
+                        if lb[0] != "param" or op not in ("Ge", "Gt", "Eq"):
+                            continue
+                        slack = 1 if op == "Gt" else 0
+                        if r[0] == "param":
+                            here.add((lb[1], ("p", r[1], slack)))
+                        elif _is_const(r):
+                            here.add((lb[1], ("c", _cv(r) + slack)))
+                out = here if out is None else (out & here)
+    res = sorted(out) if out else []
+    _SUMMARY_CACHE[key] = res
+    return res
+
+
+def _helper_success_len(fn, fact, base):
+    """Constant K with len(base) >= K implied by `fact` = "workspace helper H(.., base, .., K, ..) succeeded"."""
+    if fact.op != "Eq" or fact.r[0] != "const" or fact.l[0] != "discr":
+        return 0
+    x = fact.l[1]
+    want = 0                                   # Result::Ok / ControlFlow::Continue
+    if x[0] == "call" and strip_generics(x[1]).endswith("::branch") and x[2]:
+        x = x[2][0]
+    if x[0] != "call":
+        return 0
+    prog = _program()
+    if prog is None or x[1] not in prog.fns:
+        return 0
+    h = prog.fns[x[1]]
+    if "core::option::Option" in (h.b.get("sig") or "").rsplit("->", 1)[-1] and fact.l[1] is x:
+        want = 1                               # Option::Some tested directly
+    if int(fact.r[1]) != want:
+        return 0
+    k = 0
+    args = x[2]
+    for pi, bound in helper_len_summary(prog, x[1]):
+        if not (1 <= pi <= len(args)) or not _same(_strip_refs(args[pi - 1]), base):
+            continue
+        if bound[0] == "c":
+            k = max(k, bound[1])
+        elif 1 <= bound[1] <= len(args) and _fold(args[bound[1] - 1]) is not None:
+            k = max(k, _fold(args[bound[1] - 1]) + bound[2])
+    return k
+
+
+_FNPTR_CACHE = {}
+
+
+def _address_taken(prog):
+    """Paths of workspace functions used as values (fn pointers / fn items passed around) anywhere in the loaded crates."""
+    key = id(prog)
+    if key in _FNPTR_CACHE:
+        return _FNPTR_CACHE[key]
+    out = set()
+
+    def walk(x):
+        if isinstance(x, dict):
+            fnv = x.get("fn")
+            if isinstance(fnv, str):
+                out.add(fnv)
+            for v in x.values():
+                walk(v)
+        elif isinstance(x, (list, tuple)):
+            for v in x:
+                walk(v)
+    for f in prog.fns.values():
+        for b in f.blocks:
+            walk(b["st"])
+            t = b["term"]
+            walk(t.get("args"))
+            if t["k"] != "call":
+                walk(t)
+    _FNPTR_CACHE[key] = out
+    return out
+
+
+def caller_min_len(fn, base_sym, depth=2):
+    """Largest K such that *every* call site of the crate-private function `fn` passes, for the parameter `base_sym` is
+    rooted in, a slice whose length is proven >= K at the call (the callers' own guards, helper summaries, and — one more
+    level — their callers).  0 when `fn` is public, a trait method, used as a value, or has no call site."""
+    base = _strip_refs(base_sym)
+    if base[0] != "param" or depth <= 0:
+        return 0
+    prog = _program()
+    if prog is None or fn.kind not in ("Fn", "AssocFn") or fn.b.get("impl_trait"):
+        return 0
+    if not str(fn.b.get("vis") or "").startswith("Restricted"):
+        return 0
+    if fn.path in _address_taken(prog):
+        return 0
+    pi = base[1]
+    ks = []
+    for g in prog.fns.values():
+        for bi, t in g.calls():
+            if (t.get("f") or t.get("g")) != fn.path:
+                continue
+            args = t.get("args") or []
+            if not (1 <= pi <= len(args)):
+                return 0
+            a = g.sym_operand(args[pi - 1])
+            k, _, _ = min_len(g, guards.facts_at_term(g, bi), a)
+            if k == 0:
+                k = caller_min_len(g, a, depth - 1)
+            ks.append(k)
+    return min(ks) if ks else 0
+
 
 
 def _success_nonempty(fact, base):
@@ -108,6 +385,7 @@ def min_len(fn, facts, base_sym):
     for f in facts:
         if _success_nonempty(f, base):
             k = max(k, 1)
+        k = max(k, _helper_success_len(fn, f, base))
         for op, l, r in f.oriented():
             lb = _len_of(l)
             if lb is None or not _same(_strip_refs(lb), base):
@@ -168,6 +446,9 @@ def discharge(site):
             return "full range `[..]` never goes out of bounds"
         facts = guards.facts_at_term(fn, site.bb)
         k, sym_ge, sym_eq = min_len(fn, facts, base)
+        need = max([_cv(x) for x in (lo, hi) if x is not None and _is_const(x)] + [0]) + (1 if kind in ("incl", "to_incl") else 0)
+        if k < need:
+            k = max(k, caller_min_len(fn, base))   # guard established by every caller of this crate-private helper
         lo_c = _cv(lo) if lo is not None and _is_const(lo) else None
         hi_c = _cv(hi) if hi is not None and _is_const(hi) else None
         if kind == "from" and lo_c is not None and lo_c <= k:
@@ -189,6 +470,9 @@ def discharge(site):
     if site.kind == "call:copy_from_slice" and len(args) == 2:
         dst = fn.sym_operand(args[0])
         src = fn.sym_operand(args[1])
+        nd, ns = _static_len(fn, dst), _static_len(fn, src)
+        if nd is not None and nd == ns:
+            return "source and destination lengths are statically equal (%s) by type / by construction" % (nd if isinstance(nd, int) else nd[1])
         n = _fixed_len(fn, dst)
         if n is None:
             return None
@@ -208,6 +492,32 @@ def discharge(site):
         for s in sym_eq:
             if s[0] == "constsym" and (s[1] == n[1]):
                 return "dominating guard: source length == const generic %s == destination array length" % n[1]
+        return None
+    if site.kind == "Overflow:Sub":
+        a_op, b_op = t["ops"]
+        a, b = fn.sym_operand(a_op), fn.sym_operand(b_op)
+        aty = _operand_ty(fn, a_op) or ""
+        if not (_is_const(b) and aty.startswith("u")):
+            return None
+        c = _cv(b)
+        # look through value-preserving widenings of an unsigned value: `usize::from(x)`, `x as usize`, `x.into()`
+        x = a
+        for _ in range(4):
+            if x[0] == "call" and re.search(r"^(u16|u32|u64|u128|usize) as core::convert::From::from$|^core::convert::num::from$|core::convert::Into::into$",
+                                            strip_generics(x[1])) and len(x[2]) == 1:
+                x = x[2][0]
+            elif x[0] == "cast" and len(x) >= 5 and x[4] == "IntToInt" and str(x[2]).startswith("u") and str(x[3]).startswith("u") \
+                    and _UBITS.get(x[2], 999) <= _UBITS.get(x[3], 0):
+                x = x[1]
+            else:
+                break
+        for f in guards.facts_at_term(fn, site.bb):
+            for op, l, r in f.oriented():
+                if l not in (a, x) or not _is_const(r):
+                    continue
+                v = _cv(r)
+                if (op == "Ne" and v == 0 and c == 1) or (op == "Ge" and v >= c) or (op == "Gt" and v + 1 >= c):
+                    return "dominating guard: value %s %d before - %d (seen through a widening conversion)" % (op, v, c)
         return None
     if site.kind == "call:split_at" and len(args) == 2:
         base = fn.sym_operand(args[0])
